@@ -18,11 +18,13 @@ pub struct LifeParams {
     pub max_queue: u32,
     /// "full" | "empty" | "half" | "badtag" (9p: mount tag that is not UTF-8) | "zerotag"
     pub cfg_mode: String,
+    /// "model" | "mmio" (version 1 if legacy else 2)
+    pub transport: String,
 }
 
 impl LifeParams {
     pub fn to_json(&self) -> Value {
-        json!({"family":"life","kind":self.kind,"offered":hex(self.offered),"legacy":self.legacy,"fail_at":self.fail_at,"max_queue":self.max_queue,"cfg_mode":self.cfg_mode})
+        json!({"family":"life","kind":self.kind,"offered":hex(self.offered),"legacy":self.legacy,"fail_at":self.fail_at,"max_queue":self.max_queue,"cfg_mode":self.cfg_mode,"transport":self.transport})
     }
     pub fn from_json(v: &Value) -> Self {
         LifeParams {
@@ -32,13 +34,14 @@ impl LifeParams {
             fail_at: v["fail_at"].as_u64().unwrap() as usize,
             max_queue: v["max_queue"].as_u64().unwrap_or(32768) as u32,
             cfg_mode: v["cfg_mode"].as_str().unwrap_or("full").to_string(),
+            transport: v["transport"].as_str().unwrap_or("model").to_string(),
         }
     }
 }
 
 /// Queue-level trace segments (one per queue) of the current world.
 pub fn queue_segments(sc: &str) -> Vec<String> {
-    let neg = with_t(|t| t.negotiated);
+    let neg = negotiated();
     with_world(|w| {
         let mut v = vec![];
         let qs: Vec<(u16, usize)> = w.queues.iter().map(|(k, q)| (*k, q.n)).collect();
@@ -74,14 +77,30 @@ pub fn run(p: &LifeParams, sc: &str) -> (Vec<Vec<String>>, Value) {
         }
         _ => {}
     }
-    let t = ModelTransport::new(zoo::device_type(&p.kind), p.offered, p.legacy, zoo::num_queues(&p.kind), p.max_queue, cfg);
+    enum AnyT {
+        Model(ModelTransport),
+        Mmio(virtio_drivers::transport::mmio::MmioTransport<'static>),
+    }
+    let t = if p.transport == "mmio" {
+        let dev = std::rc::Rc::new(std::cell::RefCell::new(crate::mmio::VirtioMmioDev::new(
+            if p.legacy { 1 } else { 2 }, zoo::device_type(&p.kind) as u32, p.offered, zoo::num_queues(&p.kind), p.max_queue, cfg.clone())));
+        let size = 0x100 + cfg.len();
+        let base = crate::mmio::map(size, dev, "mmio", 0);
+        let hdr = std::ptr::NonNull::new(base as *mut virtio_drivers::transport::mmio::VirtIOHeader).unwrap();
+        AnyT::Mmio(unsafe { virtio_drivers::transport::mmio::MmioTransport::new(hdr, size) }.expect("probe"))
+    } else {
+        AnyT::Model(ModelTransport::new(zoo::device_type(&p.kind), p.offered, p.legacy, zoo::num_queues(&p.kind), p.max_queue, cfg))
+    };
     with_world(|w| {
         w.trace.clear();
         w.dev(json!({"e":"LifeReset","sc":sc,"kind":p.kind,"dev":zoo::device_type(&p.kind) as u32,"offl":limbs(p.offered,4),"legacy":p.legacy,"fail_at":p.fail_at}));
         w.fail_dma_at = if p.fail_at > 0 { Some(p.fail_at) } else { None };
     });
     let kind = p.kind.clone();
-    let r = catch_unwind(AssertUnwindSafe(move || zoo::build(&kind, t)));
+    let r = catch_unwind(AssertUnwindSafe(move || match t {
+        AnyT::Model(t) => zoo::build(&kind, t),
+        AnyT::Mmio(t) => zoo::build(&kind, t),
+    }));
     let result;
     let mut segs = vec![];
     match r {
@@ -134,27 +153,34 @@ pub fn all_params(thorough: bool, seed: u64) -> Vec<LifeParams> {
         }
         for (i, o) in offers.iter().enumerate() {
             let legacy = if thorough { false } else { i % 2 == 1 };
-            v.push(LifeParams { kind: kind.to_string(), offered: *o, legacy, fail_at: 0, max_queue: 32768, cfg_mode: "full".into() });
+            v.push(LifeParams { kind: kind.to_string(), offered: *o, legacy, fail_at: 0, max_queue: 32768, cfg_mode: "full".into(), transport: "model".into() });
             if thorough {
-                v.push(LifeParams { kind: kind.to_string(), offered: *o, legacy: true, fail_at: 0, max_queue: 32768, cfg_mode: "full".into() });
+                v.push(LifeParams { kind: kind.to_string(), offered: *o, legacy: true, fail_at: 0, max_queue: 32768, cfg_mode: "full".into(), transport: "model".into() });
             }
         }
         // k-th allocation fails, both layouts, with and without indirect/event-idx
         for legacy in [false, true] {
             for o in [1u64 << 32, u64::MAX] {
                 for k in 1..=9 {
-                    v.push(LifeParams { kind: kind.to_string(), offered: o, legacy, fail_at: k, max_queue: 32768, cfg_mode: "full".into() });
+                    v.push(LifeParams { kind: kind.to_string(), offered: o, legacy, fail_at: k, max_queue: 32768, cfg_mode: "full".into(), transport: "model".into() });
                 }
             }
         }
         // queue smaller than the driver needs / refused
-        v.push(LifeParams { kind: kind.to_string(), offered: 1 << 32, legacy: false, fail_at: 0, max_queue: 1, cfg_mode: "full".into() });
+        v.push(LifeParams { kind: kind.to_string(), offered: 1 << 32, legacy: false, fail_at: 0, max_queue: 1, cfg_mode: "full".into(), transport: "model".into() });
         // configuration space missing / too small / malformed: construction fails part-way
         for m in ["empty", "half", "badtag", "zerotag"] {
             for legacy in [false, true] {
-                v.push(LifeParams { kind: kind.to_string(), offered: 1 << 32, legacy, fail_at: 0, max_queue: 32768, cfg_mode: m.into() });
+                v.push(LifeParams { kind: kind.to_string(), offered: 1 << 32, legacy, fail_at: 0, max_queue: 32768, cfg_mode: m.into(), transport: "model".into() });
             }
         }
     }
+    let mm: Vec<LifeParams> = v
+        .iter()
+        .enumerate()
+        .filter(|(i, p)| thorough || p.fail_at > 0 || p.cfg_mode != "full" || i % 3 == 0)
+        .map(|(_, p)| LifeParams { transport: "mmio".into(), ..p.clone() })
+        .collect();
+    v.extend(mm);
     v
 }
